@@ -202,6 +202,59 @@ Proof.
   rewrite (drain_not_stuck St); [reflexivity|]. cbn [with_buf buf]. lia.
 Qed.
 
+(* ---- the progress check of Dispatch ---------------------------------------------------------------------------
+   conn.go:  before := buf.Len(); frame, err := Decode(...); ... after an answered error: if buf.Len() >= before { return }.
+   drain_g is drain with exactly this check (a reply that consumed nothing ends the call); for framers whose error replies
+   consume input - all prefix-stable ones - it is drain, and whatever the framer does with error replies it cannot make
+   the loop spin: only a codec that returns a FRAME without consuming input could (the codec contract). *)
+Fixpoint drain_g (fuel : nat) (s : cstate) : cstate :=
+  match buf s with
+  | [] => s
+  | _ :: _ =>
+    match fuel with
+    | O => {| buf := buf s; out := out s; dead := dead s; stuck := true |}
+    | S k =>
+      match parse (buf s) with
+      | POk f n => drain_g k {| buf := skipn n (buf s); out := out s ++ [EFrame f]; dead := dead s; stuck := stuck s |}
+      | PNeedMore => s
+      | PErr => {| buf := []; out := out s ++ [EClose]; dead := true; stuck := stuck s |}
+      | PErrReply f n =>
+          let s' := {| buf := skipn n (buf s); out := out s ++ [EReply f]; dead := dead s; stuck := stuck s |} in
+          match n with O => s' | S _ => drain_g k s' end
+      end
+    end
+  end.
+Definition feed_g (s : cstate) (chunk : bytes) : cstate :=
+  if dead s then s else drain_g (S (length (buf s ++ chunk))) (with_buf s (buf s ++ chunk)).
+
+Lemma drain_g_eq (St : stable) : forall fuel s, drain_g fuel s = drain fuel s.
+Proof.
+  induction fuel as [|k IH]; intros s; cbn [drain_g drain]; destruct (buf s) as [|x r] eqn:Eb; try reflexivity.
+  destruct (parse (x :: r)) as [f n| | |f n] eqn:Ep; try reflexivity; try apply IH.
+  apply (st_rep St) in Ep. destruct Ep as [Hn _]. destruct n; [lia|apply IH].
+Qed.
+Lemma feed_g_eq (St : stable) s c : feed_g s c = feed s c.
+Proof. unfold feed_g, feed. destruct (dead s); [reflexivity|apply (drain_g_eq St)]. Qed.
+
+(* no stability needed: if the framer never returns a frame without consuming input, the guarded loop ends within
+   its bound whatever else the framer does (in particular whatever it does with error replies) *)
+Lemma drain_g_not_stuck : (forall b f, parse b <> POk f 0) -> forall fuel s, (length (buf s) < fuel)%nat ->
+  stuck (drain_g fuel s) = stuck s.
+Proof.
+  intros Hp. induction fuel as [|k IH]; intros s Hl; [lia|]. cbn [drain_g].
+  destruct (buf s) as [|x r] eqn:Eb; [reflexivity|].
+  destruct (parse (x :: r)) as [f n| | |f n] eqn:Ep; try reflexivity.
+  - destruct n as [|n']; [exfalso; eapply Hp; eauto|].
+    rewrite IH; [reflexivity|]. cbn [buf]. rewrite skipn_length. cbn [length] in *. lia.
+  - destruct n as [|n']; [reflexivity|].
+    rewrite IH; [reflexivity|]. cbn [buf]. rewrite skipn_length. cbn [length] in *. lia.
+Qed.
+Theorem feed_g_never_spins : (forall b f, parse b <> POk f 0) -> forall s c, stuck (feed_g s c) = stuck s.
+Proof.
+  intros Hp s c. unfold feed_g. destruct (dead s); [reflexivity|].
+  rewrite (drain_g_not_stuck Hp); [reflexivity|]. cbn [with_buf buf]. lia.
+Qed.
+
 (* ---- connection-level outcome of an error, and several connections ---------------------------------------
    handleError: a decode error either closes THIS connection (EClose, dead, buffer dropped) or answers THIS
    request (EReply) and the connection goes on.  Nothing else is emitted for an error. *)
